@@ -142,7 +142,7 @@ func TestC01(t *testing.T) {
 	run(t, spec{
 		id:    "C01",
 		rule:  "rapid-generated operation scripts (write / close / drain / receive n / release picked items one by one or as a group / let time pass / v1 AddInput RemoveInput GracefulStop) on v1 and v2, plain and simplified disciplines, dividers Fair, Rate and two custom sum-preserving ones, buffered and unbuffered inputs, H constructed from the smallest accepted value upward; the script goroutine is the only consumer and counts received-minus-release-issued after every receive, draining the output completely at quiescent points without releasing; thorough adds a bounded exhaustive enumeration of short op sequences; non-trivial = in-flight reached exactly H and a later release was followed by a further delivery; distinct = distinct script JSON",
-		opts:  GenOpts{Vers: []int{1, 2}, Simple: []bool{false, false, true}, Dividers: allDiv, AddRemove: true, NoZero: false, V1AnyH: true},
+		opts:  GenOpts{Vers: []int{1, 2}, Simple: []bool{false, false, true}, Dividers: allDiv, AddRemove: true, NoZero: false, V1AnyH: true, Many: true},
 		check: CheckC01,
 		skip:  rejected,
 		pre: func(th bool, each func(Script, string) bool) {
@@ -176,7 +176,7 @@ func TestC02(t *testing.T) {
 	run(t, spec{
 		id:    "C02",
 		rule:  "same script language as C01 (including v1 AddInput / RemoveInput: replacement of live and of already drained channels, re-adding) with unequal input lengths (0, 1, many), inputs closing at different times, capacities 0..64; every item is (priority of registration, channel generation, sequence number); oracle: tag equals the registration priority, per-channel sequence numbers arrive in order without gaps or repeats, nothing unknown is delivered, at normal termination every written item of every closed input was delivered (simplified disciplines: each item handled exactly once); non-trivial = at least 2 priorities delivered something and an input was unbuffered or inputs had different lengths, and the run terminated normally; distinct = distinct script JSON",
-		opts:  GenOpts{Vers: []int{1, 2}, Simple: []bool{false, false, true}, Dividers: allDiv, NoZero: true, AddRemove: true},
+		opts:  GenOpts{Vers: []int{1, 2}, Simple: []bool{false, false, true}, Dividers: allDiv, NoZero: true, AddRemove: true, Many: true},
 		check: CheckC02,
 		skip:  rejected,
 		nontriv: func(s Script, tr Trace) bool {
@@ -252,7 +252,7 @@ func TestC06(t *testing.T) {
 		id:       "C06",
 		hangMine: true,
 		rule:     "sparse-arrival scripts (one active priority, alternating, late writers, unbuffered inputs, inputs closing at different times, H = minimum accepted and slightly above, skewed priority values, withheld and batched releases) on v1 and v2, plain and simplified, Fair and Rate; v1 configurations with a zero strategic share are excluded by construction (known finding F4) ; oracle on the owned clock: at a quiescent point with nothing in flight and data waiting something must have been delivered; a priority alone in having data and alone in flight holds all H handlers; releasing one item at a time in the epilogue delivers everything (no wedge); non-trivial = a quiescent point was seen with free handlers, data waiting and items in flight (the discipline waited for a further feedback), or a single priority was active, or an input was unbuffered, or H is the minimum; distinct = distinct script JSON",
-		opts:     GenOpts{Vers: []int{1, 2}, Simple: []bool{false, false, true}, Dividers: libDiv, Sparse: true, NoZero: true, AddRemove: true},
+		opts:     GenOpts{Vers: []int{1, 2}, Simple: []bool{false, false, true}, Dividers: libDiv, Sparse: true, NoZero: true, AddRemove: true, Many: true},
 		checkK:   CheckC06,
 		skip: func(s Script, tr Trace) string {
 			if tr.NewErr != "" {
@@ -281,7 +281,7 @@ func TestC07(t *testing.T) {
 		hangMine: true,
 		repeat:   true,
 		rule:     "scripts with all close orders (v1: also inputs removed or replaced instead of closed, with their items still in flight), releases withheld across time steps, inputs left open and silent, v1 GracefulStop issued early / in the middle / late, plain and simplified; oracle: termination observed (Output()/Err() closed, GracefulStop returned) implies every input closed and delivered and nothing unreleased (no Handle running), no Release() panics, Err() yields no error, and at a quiescent point where that condition holds termination has happened; non-trivial = a release or a close was withheld across a time step or drain, or an input stayed open and idle while everything else was finished; distinct = distinct script JSON",
-		opts:     GenOpts{Vers: []int{1, 2}, Simple: []bool{false, false, true}, Dividers: libDiv, NoZero: true, AddRemove: true},
+		opts:     GenOpts{Vers: []int{1, 2}, Simple: []bool{false, false, true}, Dividers: libDiv, NoZero: true, AddRemove: true, Many: true},
 		check:    CheckC07,
 		skip: func(s Script, tr Trace) string {
 			if tr.NewErr != "" {
